@@ -230,6 +230,17 @@ let handle (x : sx) : ostring =
        | None -> "BINRUN BAD"
        | Some (((outs, l), r), lo) ->
            "BINRUN " ^ OS.concat " ; " (List.map show_l outs) ^ " | L " ^ show_l l ^ " | R " ^ show_l r ^ " | LO " ^ (match lo with None -> "" | Some x -> show_s x))
+  | L [A (("onlmon" | "pastonlmon") as cmd); pk; f; L envs] ->
+      let pk = pk_of_sx pk and f = formula_of_sx f in
+      let f = if cmd = "pastonlmon" then run_pastify true f else f in
+      let smp = function L [t; v] -> (z_of_int (int_of_string (atom t)), (Obj.magic (extz_of_string (atom v)) : v)) | _ -> failwith "sample" in
+      let sig_of = function L l -> List.map smp l | _ -> failwith "sig" in
+      let env_of = function L l -> List.map sig_of l | _ -> failwith "env" in
+      let show_t = function TInf -> "inf" | T z -> string_of_int (int_of_z z) in
+      let show_s (t, v) = show_t t ^ ":" ^ string_of_extz (Obj.magic v) in
+      (match Obj.magic (run_onlmon pk f (Obj.magic (List.map env_of envs))) with
+       | None -> "ONLMON BAD"
+       | Some outs -> "ONLMON " ^ OS.concat " ; " (List.map (fun l -> OS.concat " " (List.map show_s l)) outs))
   | L [A "onlun"; kind; L bs] ->
       let tz_of s = if s = "inf" then TInf else T (z_of_int (int_of_string s)) in
       let smp = function L [t; v] -> (tz_of (atom t), (Obj.magic (extz_of_string (atom v)) : v)) | _ -> failwith "sample" in
